@@ -84,4 +84,16 @@ def expectedFor_C03 : List (String × String) := [
 /-- the code behind C03 branches on exactly the conditions the model was written against -/
 theorem conditions_as_modelled_C03 : Gen.condSitesFor_C03 = expectedFor_C03 := by rfl
 
+def expectedOptFor_C03 : List (String × String) := [
+  ("v2/list.go:jsonList.patch:Equals#1", "none"),
+  ("v2/list.go:jsonList.patch:Equals#2", "none"),
+  ("v2/list.go:jsonList.patch:Equals#3", "none"),
+  ("v2/list.go:jsonList.patch:Equals#4", "none"),
+  ("v2/object.go:jsonObject.patch:Equals#1", "none"),
+  ("v2/patch_common.go:patch:Equals#1", "none")
+]
+
+/-- every call inside the functions behind C03 passes on the option / metadata list the model passes on -/
+theorem option_plumbing_as_modelled_C03 : Gen.optSitesFor_C03 = expectedOptFor_C03 := by rfl
+
 end Jd.CondSites
